@@ -22,10 +22,10 @@ from . import verus as V
 
 ROOT = os.path.dirname(os.path.dirname(os.path.abspath(__file__)))
 CONTRACTS = os.path.join(ROOT, "contracts")
-EVIDENCE = os.path.join(ROOT, "evidence")
-REPLAYS = os.path.join(ROOT, "replays")
+EVIDENCE = os.environ.get("VK_EVIDENCE", os.path.join(ROOT, "evidence"))
+REPLAYS = os.environ.get("VK_REPLAYS", os.path.join(ROOT, "replays"))
 KNOWN = os.path.join(ROOT, "KNOWN_FINDINGS.txt")
-BUILD = os.path.join(ROOT, ".build")
+BUILD = os.environ.get("VK_BUILD", os.path.join(ROOT, ".build"))
 
 
 def log(*a):
@@ -73,8 +73,8 @@ def classify(tmpl, asm, res):
             c = d.labelled("failed precondition")
             if c is not None and os.path.basename(c.get("file_name", "")) == os.path.basename(asm.path):
                 clause_sp = c
-        elif d.kind == "postcondition":
-            c = d.labelled("failed this postcondition")
+        else:
+            c = d.labelled("failed this")
             if c is not None:
                 clause_sp = c
         if sp is None:
@@ -84,10 +84,12 @@ def classify(tmpl, asm, res):
         fn = V.enclosing_fn(lines, site_line)
         # for post-conditions the function is the one that contains the clause
         if d.kind == "postcondition":
-            fn = V.enclosing_fn(lines, clause_sp["line_start"] + 0)
-            # the clause sits between the header and the body: header precedes it
+            fn = V.enclosing_fn(lines, clause_sp["line_start"])
         if fn and fn.endswith("__canary"):
             canary.add(fn)
+            continue
+        _site = asm.line_info(site_line)
+        if _site is not None and _site["part"] == "canary":
             continue
         if d.kind == "rlimit":
             undecided.append("rlimit exceeded in %s" % fn)
@@ -118,7 +120,9 @@ def classify(tmpl, asm, res):
         clause = "\n".join(t["text"] for t in clause_sp.get("text", []))
         if d.kind == "precondition" and not same_file:
             clause = "\n".join(t["text"] for t in sp.get("text", [])) + "  [callee precondition in vstd]"
-        fails.append(Failure(tmpl.unit, fn or "?", d.kind, label, clause, set(props), d.rendered, site_line))
+        f = Failure(tmpl.unit, fn or "?", d.kind, label, clause, set(props), d.rendered, site_line)
+        if f.oid not in {x.oid for x in fails}:
+            fails.append(f)
     return fails, undecided, canary
 
 
@@ -249,19 +253,31 @@ def write_replay(prop, f, unit_out):
 
 def main(argv=None):
     ap = argparse.ArgumentParser()
-    ap.add_argument("prop")
+    ap.add_argument("props", nargs="+")
     ap.add_argument("--tier", default=os.environ.get("VERIF_TIER", "quick"))
     ap.add_argument("--replay", default=None)
     args = ap.parse_args(argv)
-    prop = args.prop
     tier = args.tier if args.tier in ("quick", "thorough") else "quick"
-    seed = int(os.environ.get("VERIF_SEED", "0") or 0)
     if args.replay:
         print(open(args.replay).read())
         return 0
-    t0 = time.time()
     from . import kani as K
     tmpls = unit_templates()
+    props = args.props
+    if props == ["all"]:
+        props = sorted(set().union(*[t.props for t in tmpls.values()]) | K.all_props())
+    unit_cache, kani_cache = {}, {}
+    rc = 0
+    for prop in props:
+        r = evaluate(prop, tier, tmpls, unit_cache, kani_cache)
+        rc = max(rc, r) if r != 1 and rc != 1 else 1
+    return rc
+
+
+def evaluate(prop, tier, tmpls, unit_cache, kani_cache):
+    from . import kani as K
+    seed = int(os.environ.get("VERIF_SEED", "0") or 0)
+    t0 = time.time()
     units = [t for t in tmpls.values() if prop in t.props]
     kgroups = K.groups_for(prop, tier)
     if not units and not kgroups:
@@ -269,15 +285,17 @@ def main(argv=None):
         return 2
     results = []
     for t in units:
-        log("[%s] verus unit %s …" % (prop, t.unit))
-        r = run_unit(t, tier)
-        log("[%s]   unit %s: %d verified, %d refuted, %d undecided, %.1fs%s" % (
-            prop, t.unit, r["verified"], len(r["failures"]), len(r["undecided"]), r["wall_s"],
-            " (drift in %s)" % ",".join(r["drift"]) if r["drift"] else ""))
-        results.append(r)
+        if t.unit not in unit_cache:
+            log("[%s] verus unit %s …" % (prop, t.unit))
+            r = run_unit(t, tier)
+            log("[%s]   unit %s: %d verified, %d refuted, %d undecided, %.1fs%s" % (
+                prop, t.unit, r["verified"], len(r["failures"]), len(r["undecided"]), r["wall_s"],
+                " (drift in %s)" % ",".join(r["drift"]) if r["drift"] else ""))
+            unit_cache[t.unit] = r
+        results.append(unit_cache[t.unit])
     kres = []
     if kgroups:
-        kres = K.run_groups(prop, kgroups, tier, log)
+        kres = K.run_groups(prop, kgroups, tier, log, kani_cache)
     known, fixed = load_known()
     violations, known_hits, undecided = [], [], []
     all_fail = []
